@@ -8,6 +8,33 @@ use crate::verif_support as vs;
 use crate::verif_support::{any_time, set_clock};
 use if_addrs::{IfOperStatus, Ifv4Addr, Ifv6Addr};
 
+/// A ServiceInfo with the fields `ServiceInfo::new` + setters produce (names concrete, numbers symbolic).
+pub(crate) fn svc_literal(port: u16, priority: u16, weight: u16, host_ttl: u32, other_ttl: u32) -> ServiceInfo {
+    ServiceInfo {
+        ty_domain: String::from("t."),
+        sub_domain: None,
+        fullname: String::from("i.t."),
+        server: String::from("h."),
+        addresses: HashSet::new(),
+        port,
+        host_ttl,
+        other_ttl,
+        priority,
+        weight,
+        txt_properties: TxtProperties { properties: Vec::with_capacity(1) },
+        addr_auto: false,
+        status: HashMap::new(),
+        requires_probe: true,
+        supported_intfs: Vec::with_capacity(1),
+        is_link_local_only: false,
+    }
+}
+
+/// `escape_instance_name` is private to service_info; the encoder harness in dns_parser reaches it through this.
+pub(crate) fn escape_for_harness(s: &str) -> String {
+    escape_instance_name(s)
+}
+
 // ---------------------------------------------------------------------------
 // C06 / C18 - subnet filter
 // ---------------------------------------------------------------------------
@@ -287,16 +314,20 @@ c16_decode_total!(c16_decode_total_6, 6, 9);
 // ---------------------------------------------------------------------------
 
 fn addr_rec(ip: u32, class: u16) -> DnsRecordBox {
-    DnsAddress::new("a.local.", RRType::A, class, 120, IpAddr::V4(Ipv4Addr::from(ip)), InterfaceId::default()).boxed()
+    DnsAddress::new("a.", RRType::A, class, 120, IpAddr::V4(Ipv4Addr::from(ip)), InterfaceId::default()).boxed()
 }
 
-fn probe_with(start: u64, recs: Vec<DnsRecordBox>) -> Probe {
+fn probe_with1(start: u64, a: DnsRecordBox) -> Probe {
     let mut p = Probe::new(start);
     // pre-sized (engine workaround, see overlay.py) and filled through the real insert_record
     p.records = Vec::with_capacity(4);
-    for r in recs {
-        p.insert_record(r);
-    }
+    p.insert_record(a);
+    p
+}
+
+fn probe_with2(start: u64, a: DnsRecordBox, b: DnsRecordBox) -> Probe {
+    let mut p = probe_with1(start, a);
+    p.insert_record(b);
     p
 }
 
@@ -310,7 +341,7 @@ fn probe_with(start: u64, recs: Vec<DnsRecordBox>) -> Probe {
 // @stubs clock(overlay)
 // @covers a_loses, b_loses, tie
 #[kani::proof]
-#[kani::unwind(10)]
+#[kani::unwind(5)]
 fn c08_tiebreak_opposite_a() {
     let (ia, ib): (u32, u32) = (kani::any(), kani::any());
     let now = any_time();
@@ -319,15 +350,15 @@ fn c08_tiebreak_opposite_a() {
     set_clock(now);
     let ca = if kani::any() { CLASS_IN } else { CLASS_IN | CLASS_CACHE_FLUSH };
     let cb = if kani::any() { CLASS_IN } else { CLASS_IN | CLASS_CACHE_FLUSH };
-    let mut pa = probe_with(sa, vec![addr_rec(ia, ca)]);
-    let mut pb = probe_with(sb, vec![addr_rec(ib, cb)]);
+    let mut pa = probe_with1(sa, addr_rec(ia, ca));
+    let mut pb = probe_with1(sb, addr_rec(ib, cb));
     // each side sees the other's proposed records in the authority section of its probe query
     let mut msg_from_b = mk_incoming(Vec::with_capacity(1), 0, 0);
     msg_from_b.authorities_mut().push(addr_rec(ib, cb));
     let mut msg_from_a = mk_incoming(Vec::with_capacity(1), 0, 0);
     msg_from_a.authorities_mut().push(addr_rec(ia, ca));
-    pa.tiebreaking(&msg_from_b, "a.local.");
-    pb.tiebreaking(&msg_from_a, "a.local.");
+    pa.tiebreaking(&msg_from_b, "a.");
+    pb.tiebreaking(&msg_from_a, "a.");
     let a_post = pa.start_time != sa;
     let b_post = pb.start_time != sb;
     if a_post {
@@ -362,18 +393,18 @@ fn c08_tiebreak_opposite_a() {
 // @stubs clock(overlay)
 // @covers not_started
 #[kani::proof]
-#[kani::unwind(10)]
+#[kani::unwind(5)]
 fn c08_tiebreak_not_started() {
     let (ia, ib): (u32, u32) = (kani::any(), kani::any());
     let now = any_time();
     let sa: u64 = kani::any();
     kani::assume(sa >= now);
     set_clock(now);
-    let mut pa = probe_with(sa, vec![addr_rec(ia, CLASS_IN)]);
+    let mut pa = probe_with1(sa, addr_rec(ia, CLASS_IN));
     let ns = pa.next_send;
     let mut msg = mk_incoming(Vec::with_capacity(1), 0, 0);
     msg.authorities_mut().push(addr_rec(ib, CLASS_IN));
-    pa.tiebreaking(&msg, "a.local.");
+    pa.tiebreaking(&msg, "a.");
     assert!(pa.start_time == sa && pa.next_send == ns);
     kani::cover!(ia < ib, "not_started");
     core::mem::forget(pa);
@@ -383,29 +414,29 @@ fn c08_tiebreak_not_started() {
 macro_rules! c08_tiebreak_count {
     ($name:ident, $we_short:expr) => {
         #[kani::proof]
-        #[kani::unwind(10)]
+        #[kani::unwind(5)]
         fn $name() {
             let ip: u32 = kani::any();
             let now = any_time();
             let s: u64 = kani::any();
             kani::assume(s < now);
             set_clock(now);
-            let txt = || DnsTxt::new("a.local.", CLASS_IN, 4500, vec![1, b'k']).boxed();
+            let txt = || DnsTxt::new("a.", CLASS_IN, 4500, vec![1, b'k']).boxed();
             let mut mine = if $we_short {
-                probe_with(s, vec![addr_rec(ip, CLASS_IN)])
+                probe_with1(s, addr_rec(ip, CLASS_IN))
             } else {
-                probe_with(s, vec![addr_rec(ip, CLASS_IN), txt()])
+                probe_with2(s, addr_rec(ip, CLASS_IN), txt())
             };
             let mut msg = mk_incoming(Vec::with_capacity(1), 0, 0);
             // a record of another name comes first and must not take part in the comparison
             msg.authorities_mut().push(
-                DnsAddress::new("b.local.", RRType::A, CLASS_IN, 120, IpAddr::V4(Ipv4Addr::from(0u32)), InterfaceId::default()).boxed(),
+                DnsAddress::new("b.", RRType::A, CLASS_IN, 120, IpAddr::V4(Ipv4Addr::from(0u32)), InterfaceId::default()).boxed(),
             );
             msg.authorities_mut().push(addr_rec(ip, CLASS_IN));
             if $we_short {
                 msg.authorities_mut().push(txt());
             }
-            mine.tiebreaking(&msg, "a.local.");
+            mine.tiebreaking(&msg, "a.");
             if $we_short {
                 assert!(mine.start_time == now + 1000 && mine.next_send == now + 1000, "fewer records must yield");
             } else {
@@ -419,7 +450,7 @@ macro_rules! c08_tiebreak_count {
 }
 
 // @harness c08_tiebreak_count_short
-// @property X08
+// @property C08
 // @maps vmap
 // @tier quick
 // @functions Probe::tiebreaking, Probe::insert_record, DnsRecordExt::compare
@@ -430,7 +461,7 @@ macro_rules! c08_tiebreak_count {
 c08_tiebreak_count!(c08_tiebreak_count_short, true);
 
 // @harness c08_tiebreak_count_long
-// @property X08
+// @property C08
 // @maps vmap
 // @tier quick
 // @functions Probe::tiebreaking, Probe::insert_record, DnsRecordExt::compare
@@ -450,14 +481,14 @@ c08_tiebreak_count!(c08_tiebreak_count_long, false);
 // @stubs clock(overlay)
 // @covers inserted_front, inserted_back
 #[kani::proof]
-#[kani::unwind(6)]
+#[kani::unwind(5)]
 fn c08_insert_sorted() {
     set_clock(any_time());
     let mk = |k: u8, class: u16| -> DnsRecordBox {
         match k {
             0 => addr_rec(kani::any(), class),
-            1 => DnsTxt::new("a.local.", class, 4500, vec![0]).boxed(),
-            _ => crate::dns_parser::DnsSrv::new("a.local.", class, 120, 0, 0, kani::any(), "b.local.".to_string()).boxed(),
+            1 => DnsTxt::new("a.", class, 4500, vec![0]).boxed(),
+            _ => crate::dns_parser::DnsSrv::new("a.", class, 120, 0, 0, kani::any(), "b.".to_string()).boxed(),
         }
     };
     let (k0, k1, k2): (u8, u8, u8) = (kani::any(), kani::any(), kani::any());
